@@ -680,6 +680,13 @@ class Symex:
 
     # ------------------------------------------------------------ expressions
     def binop(self, op, a, b, node):
+        # optional model of operators on abstract records: ``sx.binop_hook(sx, op, a, b, node)`` (node is the
+        # AugAssign statement for in-place operators); NotImplemented falls through to the generic term arithmetic
+        h = getattr(self, "binop_hook", None)
+        if h is not None:
+            r = h(self, op, a, b, node)
+            if r is not NotImplemented:
+                return r
         if isinstance(a, Ext) and a.name in _SYMPY_NUM:
             a = _SYMPY_NUM[a.name]
         if isinstance(b, Ext) and b.name in _SYMPY_NUM:
@@ -756,6 +763,12 @@ class Symex:
         return NotImplemented
 
     def compare(self, opname, a, b, node):
+        # optional model of comparisons on abstract records: ``sx.compare_hook(sx, opname, a, b, node)``
+        h = getattr(self, "compare_hook", None)
+        if h is not None:
+            r = h(self, opname, a, b, node)
+            if r is not NotImplemented:
+                return r
         if (isinstance(a, Ent) or isinstance(b, Ent)) and opname in ("==", "!=", "is", "is not") \
                 and not isinstance(a, T) and not isinstance(b, T):
             return (a is b) if opname in ("==", "is") else (a is not b)
@@ -1192,6 +1205,11 @@ class Symex:
                 decos = [U(d).split(".")[-1].split("(")[0] for d in fn.decorator_list]
                 bound = None if "staticmethod" in decos else recv
                 return self.call_value(Func(fn, [], fn._module, fn._qual, bound=bound), args, kw, node)
+            if self.attr_hook is not None:
+                # the attribute model of a record also resolves its methods (a callable attribute)
+                r = self.attr_hook(self, recv, name, node)
+                if r is not NotImplemented:
+                    return self.call_value(r, args, kw, node)
             return self.opaque_mcall(recv.term, name, args, kw)
         if isinstance(recv, T):
             hk = name
